@@ -162,6 +162,9 @@ FEATURE_GRAMMARS = [
     ('skipto', "start: ->'b' 'a' | ->&'a' /./ ;\n"),
     ('eol', "start: 'a' $-> 'b' | 'b' $-> ;\n"),
     ('joins', "start: 'b'%{'a'}+ | 'b'.{'a' 'a'} 'b' ;\n"),
+    ('shared-names', "start: 'a' c:n 'b' t:n ['a' e:n] | 'b' c:n ['b' t:n] | l+:'a' | 'b' 'b' l+:n {l+:n} ;\n\nn: /[ab]/ ;\n"),
+    ('names-without-sequence', "start: args | items ;\n\nargs: 'b'.{a+:n} ;\n\nitems: {x+:'a' | y+:'b' 'b'}+ ;\n\nn: 'a' 'a' ;\n"),
+    ('names-in-nested-choice', "start: ('a' x:'a' | 'b' [x:'b'] y:'a') [z:'b' | z+:'a'] ;\n"),
 ]
 
 
